@@ -15,6 +15,10 @@ CONSTANTS Types, Froms, Untils, Times, Deltas, Decoys
 
 VARIABLES cs, out
 
+\* configuration values (a .cfg file cannot write a negative number)
+FromsQuick    == {-1} \cup 0..4
+FromsThorough == {-1} \cup 0..6
+
 EffUntil(from, until, delta) == IF from # 0 /\ until = 0 THEN from + delta ELSE until
 
 InWindow(from, until, t, delta) ==
@@ -47,7 +51,10 @@ Outcome(c) ==
   ELSE IF c.ty = "D" THEN "applied"
   ELSE IF (c.ty = "U" /\ r[2].doc = Base.doc) \/ (c.ty = "R" /\ r[2].doc = <<>>) THEN "commitment-only" ELSE "applied"
 
-Cases == [ty : Types, from : Froms, until : Untils, t : Times, delta : Deltas, decoy : Decoys]
+\* from = -1 stands for a NEGATIVE anchorFrom (a declared bound before every anchoring time; concretised as a negative
+\* number of seconds); it is combined with an explicit anchorUntil only (the default end from + delta is not on the
+\* abstract time scale for it)
+Cases == {c \in [ty : Types, from : Froms, until : Untils, t : Times, delta : Deltas, decoy : Decoys] : c.from < 0 => c.until # 0}
 
 Init == /\ cs \in Cases
         /\ out = [view |-> Expected(cs), class |-> Outcome(cs),
